@@ -159,7 +159,7 @@ func (m *coreMon) check(op string, res string, cur *coreSnap) {
 		if res != "ok" {
 			m.violate("C18/import/exported-genesis-rejected", "InitChainer failed on the exported state: "+trunc200(m.h.lastImport))
 		} else {
-			if a, b := prev.render("x"), cur.render("x"); a != b {
+			if a, b := prev.renderFull("x"), cur.renderFull("x"); a != b {
 				m.violate("C18/queries/core-observation-differs", diffFields(a, b))
 			}
 			if li := m.h.lastImport; li != "" {
@@ -179,7 +179,7 @@ func (m *coreMon) check(op string, res string, cur *coreSnap) {
 	}
 	// ---- rejected operation: nothing may change
 	if res != "ok" && f[0] != "begin" && f[0] != "end" {
-		if prev.render("x") != cur.render("x") {
+		if prev.renderFull("x") != cur.renderFull("x") {
 			m.violate("C01/reject/state-changed-by-rejected-"+f[0], "observation differs after a rejected op")
 		}
 	}
@@ -857,13 +857,13 @@ func coreRunTrace(t *testing.T, r *Run, lines []string) {
 	mon := &coreMon{h: h, r: r, everNotic: map[int]bool{}, removed: map[int]bool{}, reset: map[int]int64{}}
 	mon.trace = []string{lines[0]}
 	s := h.snapshot()
-	r.Emit(lines[0], s.render("ok"))
+	r.Emit(lines[0], s.renderFull("ok"))
 	mon.check(lines[0], "ok", s)
 	for _, l := range lines[1:] {
 		mon.trace = append(mon.trace, l)
 		res := h.exec(l)
 		s = h.snapshot()
-		r.Emit(l, s.render(res))
+		r.Emit(l, s.renderFull(res))
 		mon.check(l, res, s)
 	}
 	r.Trace()
@@ -903,7 +903,7 @@ func runCore(t *testing.T, id string) {
 		line := p.line()
 		mon.trace = []string{line}
 		s := h.snapshot()
-		r.Emit(line, s.render("ok"))
+		r.Emit(line, s.renderFull("ok"))
 		mon.check(line, "ok", s)
 		inBlock := false
 		accepted := 0
@@ -913,7 +913,7 @@ func runCore(t *testing.T, id string) {
 			mon.trace = append(mon.trace, op)
 			res := h.exec(op)
 			s = h.snapshot()
-			r.Emit(op, s.render(res))
+			r.Emit(op, s.renderFull(res))
 			mon.check(op, res, s)
 			kind := strings.Fields(op)[0]
 			r.Hit(kind + "/" + res)
